@@ -481,6 +481,16 @@ class Gen:
                 edits.append({"op": "del", "b": b["id"], "i": i, "n": cnt,
                               "proxy": op == "delproxy"})
         case["edits"] = edits
+        if rng.random() < 0.2:
+            case["driver"] = "passes"
+        if case["fmt"] == "elf" and rng.random() < 0.15 and self.any_labels:
+            # the rewriter asks for names the module already has, through the
+            # "get or insert an extern symbol" call, and its patches use them
+            names = sorted({ln["t"] for e in edits
+                            for ln in e.get("p", {}).get("lines", [])
+                            if ln.get("t") in self.any_labels})
+            case["extern_lookups"] = names[:3] or [
+                rng.choice(self.any_labels)]
         return edits
 
     def themed_edits(self, edits, per_block):
